@@ -330,3 +330,56 @@ package keeper
 //@   ensures err == nil ==> BridgeInfo != None && val(BridgeInfo).BridgeConfig.OracleEnabled                                      // C15: only_while_oracle_enabled
 //@   ensures err == nil ==> $called("UpdateOracle") == 1 && $arg("UpdateOracle", 2) == req.Height && $arg("UpdateOracle", 3) == req.Data   // C15: handler_gets_the_message_height_and_data
 //@   assigns oracle.price, events
+
+// ---- genesis (C16) --------------------------------------------------------------------------------------
+
+//@ func (Keeper) ExportGenesis
+//@   requires Params != None
+//@   ensures ret0.Exported && ret0.Params == val(Params)                                                                                     // C16: params_exported
+//@   ensures ret0.NextL1Sequence == seqOr1(NextL1Sequence) && ret0.NextL2Sequence == seqOr1(NextL2Sequence)                                    // C16: both_sequences_exported
+//@   ensures (BridgeInfo == None ==> ret0.BridgeInfo == nil) && (BridgeInfo != None ==> ret0.BridgeInfo != nil && val(ret0.BridgeInfo) == val(BridgeInfo))   // C16: bridge_info_exported
+//@   ensures len(ret0.Validators) == card(Validators)
+//@   ensures forall k bytes :: Validators[k] != None ==> (exists j int :: 0 <= j && j < len(ret0.Validators) && ret0.Validators[j] == val(Validators[k]))   // C16: every_validator_exported
+//@   ensures forall j int :: 0 <= j && j < len(ret0.Validators) ==> (exists k bytes :: Validators[k] == Some(ret0.Validators[j]))                  // C16: only_stored_validators_exported
+//@   ensures len(ret0.LastValidatorPowers) == card(LastValidatorPowers)
+//@   ensures forall k bytes :: LastValidatorPowers[k] != None ==> (exists j int :: 0 <= j && j < len(ret0.LastValidatorPowers)
+//@        && ret0.LastValidatorPowers[j].Address == valStr(k) && ret0.LastValidatorPowers[j].Power == val(LastValidatorPowers[k]))                  // C16: every_last_power_exported
+//@   ensures forall j int :: 0 <= j && j < len(ret0.LastValidatorPowers) ==> (exists k bytes :: LastValidatorPowers[k] == Some(ret0.LastValidatorPowers[j].Power)
+//@        && ret0.LastValidatorPowers[j].Address == valStr(k))                                                                                    // C16: only_stored_last_powers_exported
+//@   ensures len(ret0.DenomPairs) == card(DenomPairs)
+//@   ensures forall d bytes :: DenomPairs[d] != None ==> (exists j int :: 0 <= j && j < len(ret0.DenomPairs) && ret0.DenomPairs[j].Denom == d && ret0.DenomPairs[j].BaseDenom == val(DenomPairs[d]))   // C16: every_denom_pair_exported
+//@   ensures forall j int :: 0 <= j && j < len(ret0.DenomPairs) ==> DenomPairs[ret0.DenomPairs[j].Denom] == Some(ret0.DenomPairs[j].BaseDenom)        // C16: only_stored_denom_pairs_exported
+//@   walk 0 invariant len(lastValidatorPowers) == $i
+//@   walk 0 invariant forall t int :: 0 <= t && t < $i ==> lastValidatorPowers[t].Address == valStr($key(t)) && LastValidatorPowers[$key(t)] == Some(lastValidatorPowers[t].Power)
+//@   walk 1 invariant len(denomPairs) == $i
+//@   walk 1 invariant forall t int :: 0 <= t && t < $i ==> denomPairs[t].Denom == $key(t) && DenomPairs[$key(t)] == Some(denomPairs[t].BaseDenom)
+//@   assigns \nothing
+
+//@ func (Keeper) InitGenesis
+//@   let vs := data.Validators
+//@   let lv := data.LastValidatorPowers
+//@   requires forall k bytes :: Validators[k] == None && ValidatorsByConsAddr[k] == None && LastValidatorPowers[k] == None                           // import into a fresh store
+//@   requires forall i int, j int :: 0 <= i && i < j && j < len(vs) ==> addrBytes(2, vs[i].OperatorAddress) != addrBytes(2, vs[j].OperatorAddress)      // exported validators are distinct records
+//@   requires forall j int :: 0 <= j && j < len(vs) ==> vs[j].ConsPower >= 0                                                                            // INV_VAL K3 (holds for exports of reachable states)
+//@   ensures Params == Some(data.Params)                                                                                                               // C16: params_imported
+//@   ensures NextL1Sequence == data.NextL1Sequence && NextL2Sequence == data.NextL2Sequence                                                            // C16: both_sequences_imported
+//@   ensures data.BridgeInfo != nil ==> BridgeInfo == Some(val(data.BridgeInfo))                                                                       // C16: bridge_info_imported
+//@   ensures data.BridgeInfo == nil ==> BridgeInfo == old(BridgeInfo)
+//@   ensures forall j int :: 0 <= j && j < len(data.DenomPairs) ==> DenomPairs[data.DenomPairs[j].Denom] != None                                       // C16: denom_pairs_imported
+//@   ensures forall d bytes :: DenomPairs[d] != old(DenomPairs)[d] ==> (exists j int :: 0 <= j && j < len(data.DenomPairs) && data.DenomPairs[j].Denom == d && DenomPairs[d] == Some(data.DenomPairs[j].BaseDenom))   // C16: only_listed_denom_pairs_written
+//@   ensures data.Exported ==> forall j int :: 0 <= j && j < len(vs) ==> Validators[addrBytes(2, vs[j].OperatorAddress)] == Some(vs[j])                   // C16: validators_imported_under_their_operator
+//@   ensures data.Exported ==> forall k bytes :: Validators[k] != None ==> (exists j int :: 0 <= j && j < len(vs) && k == addrBytes(2, vs[j].OperatorAddress))   // C16: nothing_else_imported
+//@   ensures data.Exported ==> len(res) == len(lv) && forall j int :: 0 <= j && j < len(lv) ==> res[j].Power == lv[j].Power
+//@        && LastValidatorPowers[addrBytes(2, lv[j].Address)] != None                                                                                   // C16: initial_updates_replay_the_last_powers
+//@   ensures !data.Exported ==> forall k bytes :: LastValidatorPowers[k] != None ==> Validators[k] != None && val(Validators[k]).ConsPower > 0
+//@        && LastValidatorPowers[k] == Some(val(Validators[k]).ConsPower)                                                                               // C13: fresh_genesis_bonds_exactly_the_positive_power_validators
+//@   loop 0 invariant 0 <= $i && $i <= len(vs)
+//@   loop 0 invariant forall j int :: 0 <= j && j < $i ==> Validators[addrBytes(2, vs[j].OperatorAddress)] == Some(vs[j])
+//@   loop 0 invariant forall k bytes :: Validators[k] != None ==> (exists j int :: 0 <= j && j < $i && k == addrBytes(2, vs[j].OperatorAddress) && Validators[k] == Some(vs[j]) && addrOK(2, vs[j].OperatorAddress))
+//@   loop 0 invariant forall k bytes :: LastValidatorPowers[k] == None
+//@   loop 1 invariant 0 <= $i && $i <= len(lv) && len(res) == $i
+//@   loop 1 invariant forall j int :: 0 <= j && j < $i ==> res[j].Power == lv[j].Power && LastValidatorPowers[addrBytes(2, lv[j].Address)] != None
+//@   loop 2 invariant 0 <= $i && $i <= len(data.DenomPairs)
+//@   loop 2 invariant forall j int :: 0 <= j && j < $i ==> DenomPairs[data.DenomPairs[j].Denom] != None
+//@   loop 2 invariant forall d bytes :: DenomPairs[d] != old(DenomPairs)[d] ==> (exists j int :: 0 <= j && j < $i && data.DenomPairs[j].Denom == d && DenomPairs[d] == Some(data.DenomPairs[j].BaseDenom))
+//@   assigns \everything
